@@ -16,7 +16,8 @@ the level of *sets per round* (lists without duplicates, compared as sets):
   `cur` that have `v` among their `Outs`, and puts `v` into `next` exactly when
   the counter, going up in steps of one, passes through `len(v.Ins)`; that is
   what `kahn` computes, independently of the order in which `cur` and `Outs`
-  are traversed.
+  are traversed (`ModelSeq.lean` has the literal loop, `round_order_free` in
+  `Theorems.lean` proves that every traversal order gives this summary).
 * `minCircle` is a breadth first search from every node at once, restricted to
   names not smaller than the start; the queue is level-synchronous, so it returns
   at the first level at which some start closes a cycle.  Which of the closing
